@@ -153,6 +153,10 @@ def src_ty(d, env) -> str:
         return cname(d[1])
     if k == "ref":
         return repr(cname(d[1])) if d[2] == "str" else f"typing.ForwardRef({cname(d[1])!r}, module=__name__)"
+    if k == "wrapref":
+        w = d[1]
+        nm = {"newtype": "NT", "alias": "AL", "aliasstr": "AS"}[w[0]] + str(w[1])
+        return repr(nm) if d[2] == "str" else f"typing.ForwardRef({nm!r}, module=__name__)"
     if k == "newtype":
         return f"NT{d[1]}"
     if k == "alias":
@@ -181,6 +185,8 @@ def wrappers_in(d, acc):
         acc.append(d)
     elif k == "aliasstr":
         acc.append(d)
+    elif k == "wrapref":
+        wrappers_in(d[1], acc)
     elif k in ("final", "classvar"):
         wrappers_in(d[1], acc)
 
@@ -321,6 +327,8 @@ def subdescs(d, acc):
             subdescs(t, acc)
     elif k in ("newtype", "alias"):
         subdescs(d[2], acc)
+    elif k == "wrapref":
+        subdescs(d[1], acc)
     elif k in ("final", "classvar"):
         subdescs(d[1], acc)
     return acc
@@ -379,7 +387,7 @@ class Registry:
         seen = set()
         for d in ds:
             key = repr(d)
-            if key in seen or d[0] == "ref":
+            if key in seen or d[0] in ("ref", "wrapref"):
                 continue
             seen.add(key)
             try:
@@ -496,7 +504,7 @@ class Registry:
             return f"(TName {coq_nat(d[1])})"
         if k == "ref":
             return f"(TRef {coq_nat(d[1])})"
-        if k == "wref":
+        if k in ("wref", "wrapref"):
             return f"(TRefTo {self.emit_ty(d[1])})"
         if k == "lref":
             return f"(TRefLeaf {coq_nat(self.leaves[d[1]])})"
